@@ -80,33 +80,16 @@ SURVIVES_K1 = ("(Uinv U)", "(U Uinv)", "gauge violated", "H_tilde[", "non-finite
 
 
 def run_case(case):
-    cfg = dict(case)
-    if cfg.get("herm_values"):
-        cfg["hermitian"] = True  # generate Hermitian values ...
-    gen_cfg = cfg
-    res = run_cfg_nh(case, gen_cfg)
-    return res
-
-
-def run_cfg_nh(case, gen_cfg):
-    from .. import core
-
-    # values are generated according to gen_cfg["hermitian"], the library runs with hermitian=False
-    orig = lattice.gen_values
-
-    def patched(cfg, seed):
-        return orig(dict(cfg, hermitian=gen_cfg["hermitian"]), seed)
-
-    lattice.gen_values = patched
-    core_gen = core.run_library
-    try:
-        import pmbverif.lattice as L
-
-        L.gen_values = patched
-        res = run_cfg(dict(case, hermitian=False), case["seed"], {"C05"}, case.get("req", "asc"))
-    finally:
-        lattice.gen_values = orig
+    res = run_cfg(dict(case, hermitian=False), case["seed"], {"C05"}, case.get("req", "asc"))
     V = res["violations"]
+    if case.get("herm_values") and "_out" in res:
+        hcfg = dict(case, hermitian=True)
+        _, hout, _ = lattice.run_library(hcfg, case["seed"])
+        exact = case["repr"] == "sympy"
+        for name in ("U", "Uinv", "Ht"):
+            for n, m in hout[name].items():
+                if not close(res["_out"][name][n], m, max(1.0, m.maxabs()) ** 2, exact):
+                    V.append(dict(what=f"{name}[{list(n)}] of the non-Hermitian mode differs from the Hermitian mode on Hermitian input", key=None, detail=None))
     if V and "_out" in res and in_k1_class(case):
         orders = orders_upto_total(case["k"], case["total"])
         E = [complex(e[0], e[1]) for e in case["E"]]
